@@ -97,6 +97,8 @@ fn single_leaf_workload(program: Vec<u8>, muts: Vec<(Key, Vec<Word>)>) -> Worklo
         faults: vec![],
         shape: "c06".into(),
         beacons: false,
+        stale_prelude: false,
+        prefix_prelude: false,
     }
 }
 
